@@ -134,6 +134,9 @@ type Case struct {
 	Client   string   `json:"client"` // "consume" | "retain"
 	Ops      []Op     `json:"ops,omitempty"`
 	Free     *Free    `json:"free,omitempty"`
+	// FailedCb: install RequestQueue.Failed (the sender itself never does; a queue without the
+	// callback must refuse on overflow all the same)
+	FailedCb bool `json:"failed_cb,omitempty"`
 }
 
 func (c *Case) driverLine(recs map[int]*Rec) string {
@@ -179,6 +182,9 @@ func (c *Case) driverLine(recs map[int]*Rec) string {
 func (c *Case) canon() string {
 	var sb strings.Builder
 	sb.WriteString(c.Kind + " " + c.Settings.String() + " " + c.Client + " ")
+	if c.FailedCb {
+		sb.WriteString("cb ")
+	}
 	for _, o := range c.Ops {
 		switch o.K {
 		case "add", "append":
@@ -196,7 +202,14 @@ func (c *Case) canon() string {
 		}
 	}
 	if c.Free != nil {
-		fmt.Fprintf(&sb, "free p=%d d=%d early=%v", len(c.Free.Producers), len(c.Free.Direct), c.Free.StopEarly)
+		fmt.Fprintf(&sb, "free p=%d d=%d early=%v accept=%s slow=%d", len(c.Free.Producers), len(c.Free.Direct), c.Free.StopEarly, c.Free.Accept, c.Free.SlowUs)
+		for _, p := range c.Free.Producers {
+			sb.WriteString(" [")
+			for _, it := range p {
+				fmt.Fprintf(&sb, "%d/%d,", it.R.ID, it.R.N)
+			}
+			sb.WriteString("]")
+		}
 	}
 	return sb.String()
 }
